@@ -7,12 +7,13 @@ let utf8 (l : n list) : string =
   List.iter (fun c -> Buffer.add_utf_8_uchar b (Uchar.of_int (int_of_n c))) l;
   Buffer.contents b
 
-(* one case per line:  <kind> \t <id> \t <source as comma separated code points>
+(* one case per line:  <kind> \t <id> \t <source as comma separated code points> [\t <source of a dependency package>]
    answer:            <model observation> \t <denotation> *)
 let handle = function
-  | _kind :: _id :: src :: _ ->
+  | _kind :: _id :: src :: rest ->
       let src = dec_str src in
-      utf8 (run_model src) ^ "\t" ^ utf8 (run_den src)
+      let dep = match rest with d :: _ -> dec_str d | [] -> [] in
+      utf8 (run_model dep src) ^ "\t" ^ utf8 (run_den dep src)
   | _ -> "BAD-LINE"
 
 let () = main handle
